@@ -35,7 +35,7 @@ for p in props:
 
 manifest = {
     "version": 1,
-    "setup_cmd": "cd /verif/harness && CARGO_NET_OFFLINE=true cargo build --offline --release",
+    "setup_cmd": "cd /verif/harness && CARGO_NET_OFFLINE=true cargo build --offline --release && CARGO_NET_OFFLINE=true cargo build --offline --profile wrap",
     "hooks": {
         "guard": "flipdot_verif (reserved, unused: no source hooks are needed)",
         "enable": "none - the harness links /repo's crates through path dependencies and observes them only through public API and the I/O traits",
